@@ -621,6 +621,8 @@ def propagate_new_constants(trees: List[ast.AST], pinned_globals) -> bool:
                     consts[st.targets[0].id] = v
                 elif isinstance(inner, (ast.Tuple, ast.List, ast.Set)) and inner.elts and all(isinstance(e, ast.Constant) and isinstance(e.value, (int, float, str)) for e in inner.elts):
                     consts[st.targets[0].id] = inner  # a constant collection used for membership tests
+                elif isinstance(v, ast.Call) and isinstance(v.func, ast.Name) and v.func.id in ("datetime", "timedelta") and all(isinstance(a, ast.Constant) for a in v.args) and all(isinstance(k.value, ast.Constant) for k in v.keywords):
+                    consts[st.targets[0].id] = v  # an immutable value built from literals
         consts = {k: v for k, v in consts.items() if stores.get(k) == 1 and k not in pinned_globals}
         # never assigned elsewhere (global statements / attribute stores are not tracked: constants are ALL_CAPS or _private by convention)
         consts = {k: v for k, v in consts.items() if k.upper() == k or k.startswith("_")}
